@@ -6,9 +6,35 @@ Scopes.tla enumerates the namesake / unusual-shape programs the property singles
 type-checked: the model's WellFormed prediction must agree with go/types); corpora: example files, generated
 programs; thorough: std, the repository, all parameter corners, and the real binaries on the generated workspaces.
 """
+import os
+import re
+import subprocess
+
 import vlib
 from props import lifecycle_common as lc
 from props import gen_common
+
+
+CRASH = re.compile(r"panic:|goroutine \d+ \[|SIGSEGV|fatal error:")
+
+
+def binaries_on_corpus(ctx, gdir, thorough):
+    """The real front-ends on the adversarial corpus (all checkers, several concurrency values, repeated): no crash."""
+    n = 0
+    cli = ctx.build_repo_bin("cmd/go-critic")
+    ana = ctx.build_repo_bin("cmd/go-critic-analysis")
+    ncpu = os.cpu_count() or 4
+    runs = [([cli, "check", "-enableAll", "-concurrency", str(k), "./..."], "cli -concurrency %d" % k) for k in ([ncpu, 2, ncpu, 64] if thorough else [ncpu, ncpu, 2])]
+    runs += [([ana, "-enable-all", "./..."], "analysis")] * (2 if thorough else 1)
+    if thorough:
+        runs.append(([ctx.build_repo_bin("cmd/gocritic"), "check", "-enableAll", "./..."], "twin"))
+    for args, tag in runs:
+        r = subprocess.run(args, cwd=gdir, capture_output=True, text=True, env=vlib.goenv(), timeout=900)
+        n += 1
+        if CRASH.search(r.stderr):
+            line = next(l for l in r.stderr.splitlines() if CRASH.search(l))
+            ctx.fail("BinaryCrash %s" % tag.split()[0], "%s on the adversarial corpus crashed: %s" % (tag, line[:300]), {"args": args[1:], "stderr": r.stderr[-2000:]})
+    return n
 
 
 def run(ctx):
@@ -46,6 +72,8 @@ def run(ctx):
                          "%s in checker %s on %s: %s [%s]" % (n["kind"], n["checker"], n["file"], n["detail"][0], top),
                          {"cmd": "vh lifecycle " + " ".join(args), "nonconf": n})
 
+    bins = binaries_on_corpus(ctx, gdir, thorough)
+
     # anti-vacuity: a trace with a missing walk (panic) must be rejected
     def drop(e):
         return {"ev": "CheckPanic", "c": e["c"], "file": e["file"]} if e["ev"] == "Walked" else None
@@ -55,7 +83,7 @@ def run(ctx):
     cov = {
         "states": st, "transitions": tr, "traces_validated_against_impl": len(plans),
         "events_validated": events, "checks": checks, "files": files,
-        "corpora": [p[0] for p in plans], "design": design, "generated": gen_stats, "exhaustive": False,
+        "corpora": [p[0] for p in plans], "binary_runs": bins, "design": design, "generated": gen_stats, "exhaustive": False,
         "samples": samples[:5] or ["(none)"],
     }
     return ctx.finish("model_checking", cov, ["per-Check deadline 60 s; panics are recovered per Check so the run continues"])
